@@ -230,6 +230,8 @@ def _one_segment(r, script, qmax, frag, corr, items):
 
 
 def correspond(ctx, corr, model_ok):
+    from harness import battery
+    battery.run(corr, ['lease-queue-across-reconnect'])
     rng = ctx.rng
     items = []
     for i in range(ctx.scale(250, 4000)):
@@ -287,6 +289,10 @@ def search(ctx, budget_s):
 
 
 def replay(obj):
+    from harness import battery as _bat
+    _r = _bat.replay(obj.get('case') if isinstance(obj.get('case'), dict) else obj)
+    if _r is not None:
+        return _r
     case = obj['case']
     if case['kind'] == 'requester':
         script = [tuple(s) for s in case['script']]
